@@ -1,6 +1,7 @@
 from dataclasses import dataclass
 from typing import List, Optional
 from xml.etree import ElementTree
+from xml.sax.saxutils import escape
 
 from .exceptions import odxrequire
 from .odxlink import OdxDocFragment
@@ -36,7 +37,7 @@ class Description:
             return None
 
         # Extract the contents of the tag as a XHTML string.
-        raw_string = et_element.text or ""
+        raw_string = escape(et_element.text or "")
         for e in et_element:
             if e.tag == "EXTERNAL-DOCS":
                 break
